@@ -8,6 +8,7 @@ import (
 	"os"
 	"os/exec"
 	"path/filepath"
+	"sort"
 	"strings"
 )
 
@@ -17,7 +18,8 @@ type built struct {
 	status string            // "ok" or an error class
 	chains map[string]string // raw sorter name -> "value|ptr <TypeName> <S-expr of the Less body>"
 	probe  *probeProc
-	idx    int // type index inside the probe
+	idx    int      // type index inside the probe
+	names  []string // raw sorter names (`*` = pointer form) found in the generated file, sorted
 }
 
 type probeProc struct {
@@ -354,12 +356,13 @@ func (w *world) tryBuild(defs []*Def) ([]*built, string) {
 		}
 	}
 	chains := map[string]string{}
+	elemOf := map[string]string{}
 	if anySorter {
 		src, err := os.ReadFile(genFile)
 		if err != nil {
 			return nil, "err:no-output"
 		}
-		chains, err = chainsOfSource(src)
+		chains, elemOf, err = chainsOfSource(src)
 		if err != nil {
 			return nil, "err:unparsable-output"
 		}
@@ -391,14 +394,21 @@ func (w *world) tryBuild(defs []*Def) ([]*built, string) {
 	}
 	res := make([]*built, len(defs))
 	for k, d := range defs {
+		// the sorters of this definition are read off the GENERATED file: every slice type whose
+		// element is this struct, with its element form
 		b := &built{def: d, status: "ok", chains: map[string]string{}, probe: p, idx: k}
-		for _, raw := range d.Sorters() {
-			c, ok := chains[typeTrim(raw)]
-			if !ok {
-				c = "missing"
+		for tn, el := range elemOf {
+			if el != structName(k) {
+				continue
 			}
-			b.chains[raw] = c
+			raw := tn
+			if strings.HasPrefix(chains[tn], "ptr ") {
+				raw = "*" + tn
+			}
+			b.chains[raw] = chains[tn]
+			b.names = append(b.names, raw)
 		}
+		sort.Strings(b.names)
 		res[k] = b
 	}
 	return res, ""
